@@ -48,7 +48,8 @@ def cases(draw):
             "ni": draw(st.integers(0, 5)), "ci": draw(st.integers(0, 3)),
             "vt": draw(st.sampled_from([2, 24, 0])), "value": draw(st.sampled_from(["1", "0", "x", "21.5"])),
         })
-    return {"version": hist["version"], "ops": ops, "after": after}
+    # a controller that uses the public child API (Home Assistant validates every child in its event callback)
+    return {"version": hist["version"], "ops": ops, "after": after, "validate": draw(st.booleans())}
 
 
 def apply_ops(driver, ops):
@@ -102,6 +103,20 @@ def after_load(driver, version, ops):
     return out
 
 
+def use_child_api(gw, version):
+    """Read-only public API calls a controller makes on the tree: they must not change what can be saved."""
+    import voluptuous as vol
+
+    for sensor in list(gw.sensors.values()):
+        for child in list(sensor.children.values()):
+            for call in (lambda c=child: c.validate(version), lambda c=child: c.get_schema(version), lambda c=child: repr(c)):
+                try:
+                    call()
+                except (vol.Invalid, KeyError, ValueError):
+                    pass
+        repr(sensor)
+
+
 def iteration_order(gw):
     return [[nid, [[cid, list(child.values)] for cid, child in sensor.children.items()]] for nid, sensor in gw.sensors.items()]
 
@@ -119,6 +134,8 @@ def check_case(case, stats=None):
                 if stats is not None:
                     stats.label("foreign:pump-crash")
                 return
+            if case.get("validate"):
+                use_child_api(life.gw, version)
             before = drive.typed(life.projection())
             order_before = iteration_order(life.gw)
             trans = drive.transient(life.gw)
